@@ -78,7 +78,8 @@ Definition known_id (id : Z) : bool :=
   (id =? tpMaxIdleTimeout) || (id =? tpMaxUDPPayloadSize) || (id =? tpInitialMaxData) ||
   (id =? tpInitialMaxStreamDataBidiLocal) || (id =? tpInitialMaxStreamDataBidiRemote) ||
   (id =? tpInitialMaxStreamDataUni) || (id =? tpInitialMaxStreamsBidi) || (id =? tpInitialMaxStreamsUni) ||
-  (id =? tpActiveConnectionIDLimit) || (id =? tpMaxDatagramFrameSize).
+  (id =? tpActiveConnectionIDLimit) || (id =? tpMaxDatagramFrameSize) ||
+  (id =? tpAckDelayExponent) || (id =? tpMaxAckDelay).
 
 Fixpoint kv_of (ps : list tparam) : list (Z * Z) :=
   match ps with
@@ -116,6 +117,51 @@ Definition rec_default : limits := mkL 0 0 0 0 0 0 0 0 0 0.
 Definition recorded (kv : list (Z * Z)) : limits :=
   let r := fold_left set_adv kv rec_default in
   mkL (l_max_data r) (l_sd_bl r) (l_sd_br r) (l_sd_uni r) (l_s_bidi r) (l_s_uni r) (l_cid r) (l_dgram r) (l_idle r) 0.
+
+(** * The connection's own record (wire.PopulateFromUQUIC) and a peer's reading of the bytes *)
+
+(* the parameters outside [limits]: (ack_delay_exponent, max_ack_delay in ms) and the flag
+   disable_active_migration (0/1) *)
+Definition extras := (Z * Z)%type.
+Definition extras_default : extras := (protoDefaultAckDelayExponent, protoDefaultMaxAckDelayMs).
+Definition set_extra (x : extras) (p : Z * Z) : extras :=
+  if fst p =? tpAckDelayExponent then (snd p, snd x)
+  else if fst p =? tpMaxAckDelay then (fst x, snd p) else x.
+Definition is_dam (p : tparam) : bool := fst p =? tpDisableActiveMigration.
+
+Definition reading := (limits * extras * Z)%type.
+
+(* a peer's reading of a parameter list: RFC 9000 18.2 defaults for what is absent *)
+Definition read_list (ps : list tparam) : reading :=
+  (advertised (kv_of ps), fold_left set_extra (kv_of ps) extras_default, if existsb is_dam ps then 1 else 0).
+Definition read_wire (b : list Z) : option reading :=
+  match parse b with Some l => Some (read_list l) | None => None end.
+
+(* PopulateFromUQUIC (repaired): starts from the protocol defaults (as unmarshal does), walks the list,
+   reads every integer-valued parameter from its wire encoding (Value()), sets the flag for
+   disable_active_migration *)
+Definition rec_step (st : reading) (p : tparam) : reading :=
+  let '(l, x, d) := st in
+  if known_id (fst p) then
+    match vparse (snd p) with
+    | inr (v, _, []) => (set_adv l (fst p, v), set_extra x (fst p, v), d)
+    | _ => st
+    end
+  else if is_dam p then (l, x, 1)
+  else st.
+Definition record_of (ps : list tparam) : reading := fold_left rec_step ps (adv_default, extras_default, 0).
+
+(* the shape before the repair: zero values for what is absent, no case for max_udp_payload_size
+   and ack_delay_exponent *)
+Definition rec_step_old (st : reading) (p : tparam) : reading :=
+  if (fst p =? tpMaxUDPPayloadSize) || (fst p =? tpAckDelayExponent) then st else rec_step st p.
+Definition record_of_old (ps : list tparam) : reading :=
+  fold_left rec_step_old ps (rec_default, (0, 0), 0).
+
+Definition record_list (r : reading) : list Z :=
+  let '(l, x, d) := r in
+  [l_max_data l; l_sd_bl l; l_sd_br l; l_sd_uni l; l_s_bidi l; l_s_uni l; l_cid l; l_dgram l; l_idle l / nsPerMs; l_udp l;
+   fst x; snd x; d].
 
 (* version_information (RFC 9368; legacy id): utls draws a fresh GREASE version at every
    Value() call, so two marshalings of the same list differ there: an oracle. *)
